@@ -4,11 +4,14 @@ import (
 	"bytes"
 	"crypto/rand"
 	"encoding/binary"
+	"errors"
 	"io"
 	mrand "math/rand"
 	"runtime"
 	"strconv"
 	"sync"
+
+	"github.com/google/uuid"
 )
 
 // The random source of tunnox-core (internal/utils/random) is crypto/rand.Read, which reads the
@@ -109,6 +112,44 @@ var disp *dispatcher
 func installReader() {
 	disp = &dispatcher{orig: rand.Reader, src: map[int64]*source{}}
 	rand.Reader = disp
+	// github.com/google/uuid keeps its own reader (captured from crypto/rand at init): uuid.SetRand
+	// is the seam for an entropy failure seen by the UUID-backed generators
+	udisp = &uuidDispatcher{orig: disp.orig, failing: map[int64]bool{}}
+	uuid.SetRand(udisp)
+}
+
+var errEntropy = errors.New("entropy source failure (injected)")
+
+// uuidDispatcher fails reads of the goroutines registered as "entropy failing" and serves the
+// operating system's randomness to everybody else.
+type uuidDispatcher struct {
+	orig    io.Reader
+	mu      sync.RWMutex
+	failing map[int64]bool
+}
+
+var udisp *uuidDispatcher
+
+func (d *uuidDispatcher) Read(p []byte) (int, error) {
+	d.mu.RLock()
+	f := d.failing[goid()]
+	d.mu.RUnlock()
+	if f {
+		return 0, errEntropy
+	}
+	return d.orig.Read(p)
+}
+
+func (d *uuidDispatcher) fail() func() {
+	id := goid()
+	d.mu.Lock()
+	d.failing[id] = true
+	d.mu.Unlock()
+	return func() {
+		d.mu.Lock()
+		delete(d.failing, id)
+		d.mu.Unlock()
+	}
 }
 
 func (d *dispatcher) Read(p []byte) (int, error) {
